@@ -32,17 +32,17 @@ REGISTRY = {
 }
 # units whose obligations carry a property (an obligation counts for a property only if its clause is tagged with it)
 PROP_UNITS = {
-    'C01': ['expr', 'elim', 'matrix', 'regexp', 'caseconv', 'split', 'escaper', 'rep', 'dfa', 'dfa_kf', 'trie', 'render', 'format', 'nested', 'charcount'],
+    'C01': ['expr', 'elim', 'matrix', 'regexp', 'caseconv', 'split', 'escaper', 'rep', 'dfa', 'dfa_kf', 'trie', 'render', 'format', 'nested', 'charcount', 'minimize'],
     'C02': ['expr', 'elim', 'matrix', 'regexp', 'dfa', 'minimize', 'gates', 'render', 'format', 'charcount'],
     'C03': ['classify', 'gates', 'trie'],
-    'C04': ['caseconv', 'regexp', 'render'],
-    'C05': ['trie', 'render', 'rep', 'splice', 'charcount'],
+    'C04': ['caseconv', 'regexp', 'render', 'builder'],
+    'C05': ['trie', 'render', 'rep', 'splice', 'charcount', 'minimize'],
     'C06': ['render', 'format', 'trie', 'rep', 'nested', 'indent'],
     'C07': ['expr', 'elim', 'matrix', 'regexp', 'builder', 'split', 'escaper', 'caseconv', 'rep', 'splice', 'gates', 'render', 'format', 'order', 'dfa', 'minimize', 'trie', 'cli', 'escape', 'classify', 'nested', 'indent', 'charcount'],
     'C08': ['render', 'expr', 'regexp', 'format', 'indent'],
     'C09': ['tables', 'classify'],
     'C10': ['builder', 'regexp', 'gates', 'order', 'dfa'],
-    'C11': ['escape', 'builder', 'format', 'nested'],
+    'C11': ['escape', 'builder', 'format', 'nested', 'split'],
     'C12': ['cli', 'gates', 'builder'],
     'C13': ['rep', 'splice', 'builder', 'render', 'trie'],
     'C14': ['python'],
